@@ -111,6 +111,9 @@ class CentralizedTaskingEngine(TaskingEngine):
                 )
             self._reward_executor.join()
 
+            self.calculateRewards()
+            # [NOTE]: Events of this scope scale rows of the reward matrix, so they have to be handled
+            #   after the rewards are calculated (which overwrites the matrix) and before the decision.
             handleRelevantEvents(
                 self,
                 self._database,
@@ -120,7 +123,6 @@ class CentralizedTaskingEngine(TaskingEngine):
                 self.logger,
                 scope_instance_id=self.unique_id,
             )
-            self.calculateRewards()
             self.generateTasking()
 
             self.logger.debug("Executing tasking strategy...")
